@@ -33,6 +33,24 @@ type Family struct {
 
 	mu  sync.Mutex
 	ref map[string]RefEntry
+	mem *MemVM
+}
+
+// MemRef is the primary reference: the op sequence evaluated by the real GnoVM in one in-memory execution
+// without any store (see MemVM).
+func (f *Family) MemRef(seq string) (RefEntry, bool) {
+	f.mu.Lock()
+	if f.mem == nil {
+		vm, err := NewMemVM(f)
+		if err != nil {
+			f.mu.Unlock()
+			panic(err)
+		}
+		f.mem = vm
+	}
+	vm := f.mem
+	f.mu.Unlock()
+	return vm.Ref(seq)
 }
 
 type RefEntry struct {
@@ -240,7 +258,7 @@ func (x *Explorer) Run() {
 		}
 		gen("")
 	}
-	// warm one env first (stdlib load is process-wide and slow the first time)
+	// warm one env first (the first stdlib load is process-wide and slow)
 	x.putEnv(x.getEnv())
 	x.R.ParFor(len(tasks), func(i int) {
 		e := x.getEnv()
@@ -299,7 +317,10 @@ func (x *Explorer) node(e *Env, t task, hist []string, seq string, memo map[stri
 	x.Nodes.Add(1)
 	hkey := f.Name + ":" + strings.Join(hist, "|")
 	x.R.Distinct(hkey)
-	ref := f.Ref(seq)
+	ref, refOK := f.MemRef(seq)
+	if !refOK {
+		x.R.HarnessError("in-memory GnoVM run of %s %q failed: %s", f.Name, seq, LastMemPanic)
+	}
 	want := strings.Join(ref.Rets[len(seq)-len(seg):], ";") + ";#" + ref.Dump
 	s, ok := res.Str()
 	if !res.OK || !ok {
@@ -374,9 +395,8 @@ func (x *Explorer) node(e *Env, t task, hist []string, seq string, memo map[stri
 	x.dfs(e, t, hist, seq, memo)
 }
 
-// Report classifies and minimises the mismatches and reports them as violations.
-// A mismatch w.r.t. the Go reference whose single-transaction history shows the very same observation is a
-// Go/Gno semantic difference, not a persistence effect: it is reported under its own class.
+// Report minimises the mismatches (per family and class: shortest sequence, fewest transactions, lexicographic)
+// and reports them as violations.
 func (x *Explorer) Report() {
 	x.mu.Lock()
 	mis := append([]Mismatch{}, x.Mis...)
@@ -385,22 +405,7 @@ func (x *Explorer) Report() {
 	best := map[key]Mismatch{}
 	count := map[key]int{}
 	for _, m := range mis {
-		cl := m.Class
-		if cl == "ret" || cl == "dump-hot" {
-			if len(m.Hist) == 1 {
-				cl = "gno-single-tx-differs-from-go:" + cl
-			} else if s, ok := x.single[m.Fam+"|"+m.Seq]; ok {
-				// compare the observations of the last segment only (what this tx returned)
-				if sameTail(s, m.Got) {
-					cl = "gno-single-tx-differs-from-go:" + cl
-				} else {
-					cl = "cut-differs-from-single-tx:" + cl
-				}
-			} else {
-				cl = "cut-differs-from-go:" + cl
-			}
-		}
-		k := key{m.Fam, cl}
+		k := key{m.Fam, m.Class}
 		count[k]++
 		b, ok := best[k]
 		if !ok || len(m.Seq) < len(b.Seq) || (len(m.Seq) == len(b.Seq) && (m.cuts() < b.cuts() || (m.cuts() == b.cuts() && strings.Join(m.Hist, "|") < strings.Join(b.Hist, "|")))) {
@@ -420,15 +425,108 @@ func (x *Explorer) Report() {
 	for _, k := range ks {
 		m := best[k]
 		f := x.fam(m.Fam)
-		var ops []string
-		for i := 0; i < len(m.Seq); i++ {
-			ops = append(ops, fmt.Sprintf("%c=%s", m.Seq[i], f.Desc[m.Seq[i]]))
+		confirmed := "n/a"
+		if !strings.HasPrefix(m.Class, "graph:") {
+			got, err := x.Replay(f, m)
+			switch {
+			case err != nil:
+				x.R.HarnessError("replay of %s %v on a fresh chain failed: %v", m.Fam, m.Hist, err)
+			case got != m.Got:
+				x.R.HarnessError("%s %v: deviation %q seen in the snapshot explorer is not reproduced on a fresh chain with committed blocks (got %q)", m.Fam, m.Hist, m.Got, got)
+			}
+			confirmed = "reproduced on a fresh chain, every transaction in its own committed block"
 		}
+		single := ""
+		x.mu.Lock()
+		if s, ok := x.single[m.Fam+"|"+m.Seq]; ok {
+			single = s
+		}
+		x.mu.Unlock()
 		x.R.Violation(fmt.Sprintf("%s:%s:txs=[%s]", m.Fam, k.class, strings.Join(m.Hist, "|")), map[string]any{
-			"family": m.Fam, "class": k.class, "transactions": m.Hist, "ops": ops, "got": m.Got, "want": m.Want, "extra": m.Extra,
-			"same_class_count": count[k], "note": "minimal history of its class (shortest sequence, fewest transactions)",
+			"family": m.Fam, "class": k.class, "transactions": m.Hist, "ops": f.Describe(m.Seq), "got": m.Got, "want_in_memory_gnovm": m.Want, "extra": m.Extra,
+			"go_native": strings.Join(f.Ref(m.Seq).Rets, ";") + ";#" + f.Ref(m.Seq).Dump, "same_ops_in_one_tx": single,
+			"confirmation": confirmed, "same_class_count": count[k], "note": "minimal history of its class (shortest sequence, fewest transactions)",
 		})
 	}
+}
+
+// Replay runs the history of a mismatch on a fresh chain, every transaction in its own committed block, and returns
+// the observation corresponding to m.Got.
+func (x *Explorer) Replay(f *Family, m Mismatch) (string, error) {
+	e, err := NewEnvCommitted(x.pkgs())
+	if err != nil {
+		return "", err
+	}
+	var last Res
+	for _, seg := range m.Hist {
+		last = e.Call(f.Path, "Do", seg)
+	}
+	if m.Class == "dump-cold" {
+		last = e.Call(f.Path, "Do", "")
+	}
+	if s, ok := last.Str(); ok && last.OK {
+		return s, nil
+	}
+	return FirstLine(last.Log), nil
+}
+
+// Describe spells out an op sequence.
+func (f *Family) Describe(seq string) []string {
+	var ops []string
+	for i := 0; i < len(seq); i++ {
+		ops = append(ops, fmt.Sprintf("%c: %s", seq[i], f.Desc[seq[i]]))
+	}
+	return ops
+}
+
+// GoDiff is the minimal op sequence on which the in-memory GnoVM run and the native Go run of the same logic differ
+// (third opinion; a Go/Gno language difference, not a persistence effect).
+type GoDiff struct {
+	Family string
+	Seq    string
+	Ops    []string
+	Gno    string
+	Go     string
+	Count  int
+}
+
+// GoDiffs compares, for all sequences <= K, the in-memory GnoVM run with native Go.
+func (x *Explorer) GoDiffs() []GoDiff {
+	var out []GoDiff
+	for _, f := range x.Fams {
+		var d *GoDiff
+		var gen func(s string)
+		gen = func(s string) {
+			if len(s) > 0 {
+				g := f.Ref(s)
+				m, ok := f.MemRef(s)
+				gs := strings.Join(g.Rets, ";") + ";#" + g.Dump
+				ms := strings.Join(m.Rets, ";") + ";#" + m.Dump
+				if !ok {
+					ms = "(VM panic)"
+				}
+				if gs != ms {
+					if d == nil {
+						d = &GoDiff{Family: f.Name, Seq: s, Ops: f.Describe(s), Gno: ms, Go: gs}
+					} else if len(s) < len(d.Seq) {
+						d.Seq, d.Ops, d.Gno, d.Go = s, f.Describe(s), ms, gs
+					}
+					d.Count++
+				}
+			}
+			if len(s) == x.K {
+				return
+			}
+			for i := 0; i < len(f.Ops); i++ {
+				gen(s + string(f.Ops[i]))
+			}
+		}
+		gen("")
+		if d != nil {
+			out = append(out, *d)
+		}
+	}
+	return out
 }
 
 func (x *Explorer) fam(name string) *Family {
@@ -438,20 +536,4 @@ func (x *Explorer) fam(name string) *Family {
 		}
 	}
 	return nil
-}
-
-// sameTail reports whether the result of the last transaction (got: "r;r;#dump") equals the tail of the
-// single-transaction result (single: "r;r;r;r;#dump").
-func sameTail(single, got string) bool {
-	r1, d1, ok1 := ParseDo(single)
-	r2, d2, ok2 := ParseDo(got)
-	if !ok1 || !ok2 || d1 != d2 || len(r2) > len(r1) {
-		return false
-	}
-	for i := range r2 {
-		if r2[len(r2)-1-i] != r1[len(r1)-1-i] {
-			return false
-		}
-	}
-	return true
 }
